@@ -32,8 +32,8 @@ FL = ['--float-overflow-check', '--nan-check', '--conversion-check'] if False el
 for q in range(1, 31):
     quick = q in (1, 2, 4, 8, 10)
     if q <= 16:
-        J('grid.q%d' % q, 'h_quant_grid', ['C04', 'C12'], defines=DEFS + ['-DQ=%d' % q], cbmc=FL, tier=None if quick else 'thorough', timeout=1800, cost=7, native=True)
-J('mono', 'h_quant_mono', ['C04'], cbmc=FL, native=True, timeout=3600, tier='thorough')
+        J('grid.q%d' % q, 'h_quant_grid', ['C04', 'C12'], defines=DEFS + ['-DQ=%d' % q], cbmc=FL, tier=None if quick else 'thorough', timeout=1800, cost=7, native=True, may_time_out=not quick)
+J('mono', 'h_quant_mono', ['C04'], cbmc=FL, native=True, timeout=3600, tier='thorough', may_time_out=True)
 J('pure', 'h_enf_Quantizer_QuantizeFloat', ['C04', 'C12'], enforce='Quantizer_QuantizeFloat', cbmc=FL)
 J('pure.deq', 'h_enf_Dequantizer_DequantizeFloat', ['C04', 'C12'], enforce='Dequantizer_DequantizeFloat')
 J('IsQuantizationValid.contract', 'h_enf_AQT_IsQuantizationValid', ['C04', 'C12', 'C05'], enforce='AQT_IsQuantizationValid')
